@@ -1622,7 +1622,8 @@ func (t *Topic) thisUserSub(sess *Session, pkt *ClientComMessage, asUid types.Ui
 			userData.delID, userData.readID, userData.recvID = 0, 0, 0
 		}
 
-		if isNullValue(private) {
+		privateIsNull := isNullValue(private)
+		if privateIsNull {
 			private = nil
 		}
 		userData.private = private
@@ -1642,16 +1643,28 @@ func (t *Topic) thisUserSub(sess *Session, pkt *ClientComMessage, asUid types.Ui
 				return nil, err
 			}
 
-		} else if asChan && userData.modeWant != oldWant {
-			// Channel reader changed access mode, save changed mode to db.
-			if err := store.Subs.Update(tname, asUid,
-				map[string]any{"ModeWant": userData.modeWant}); err != nil {
-				sess.queueOut(ErrUnknownReply(pkt, now))
-				return nil, err
+		} else if asChan {
+			// The channel reader is subscribed already: save what has changed; Private stays as stored unless given.
+			update := map[string]any{}
+			if userData.modeWant != oldWant {
+				update["ModeWant"] = userData.modeWant
+			}
+			if private != nil || privateIsNull {
+				update["Private"] = private
+			} else {
+				userData.private = sub.Private
+			}
+			if len(update) > 0 {
+				if err := store.Subs.Update(tname, asUid, update); err != nil {
+					sess.queueOut(ErrUnknownReply(pkt, now))
+					return nil, err
+				}
 			}
 
-			// Enable or disable fcm push notifications for the subsciption.
-			t.channelSubUnsub(asUid, userData.modeWant.IsPresencer())
+			if userData.modeWant != oldWant {
+				// Enable or disable fcm push notifications for the subsciption.
+				t.channelSubUnsub(asUid, userData.modeWant.IsPresencer())
+			}
 		}
 
 		if asChan {
